@@ -86,6 +86,20 @@ fn run_case(dir: &Path, c: &Case) -> Result<Vec<&'static str>, (String, String)>
         Err(StartError::Harness(e)) => return Err(("harness".into(), e)),
     };
     let n = parsed.unwrap() as usize;
+    if c.scenario == 1 {
+        let r = big_upload(&srv, &d, n);
+        let tail = srv.stderr_tail();
+        drop(srv);
+        let _ = std::fs::remove_dir_all(&root);
+        return r.map_err(|(s, m)| (s, format!("{} | stderr: {}", m, tail)));
+    }
+    if c.scenario == 2 {
+        let r = stale_ack_after_long_window(&srv, &d, n);
+        let tail = srv.stderr_tail();
+        drop(srv);
+        let _ = std::fs::remove_dir_all(&root);
+        return r.map_err(|(s, m)| (s, format!("{} | stderr: {}", m, tail)));
+    }
     // copies are 1 ms apart; a generous quiet period so that a loaded machine cannot split a run
     let quiet = Duration::from_millis(300);
     let opts: Vec<(String, String)> = if c.with_options { vec![("blksize".into(), "1024".into())] } else { vec![] };
@@ -152,9 +166,49 @@ fn big_upload(srv: &Server, d: &Path, n: usize) -> Result<Vec<&'static str>, (St
         wclient::Start::Accepted { neg, .. } => neg,
         other => return Err(("harness".into(), format!("upload not accepted: {:?}", other))),
     };
-    let mut srcs = vec![];
-    if let Err(e) = wclient::upload(&cl, &neg, &data, None, &mut srcs) {
-        return Err(("dup-mode-upload".into(), format!("N={}: a loss-free upload with windowsize 300 failed: {}", n, e)));
+    // paced sending (40 datagrams, then 3 ms): the kernel's socket buffer never overflows, so nothing is lost on loopback,
+    // while a worker that is busy repeating an ACK N+1 times does not read its queue for N ms
+    let blk = neg.blk;
+    let n_blocks = data.len() / blk + 1;
+    let mut next = 1usize;
+    while next <= n_blocks {
+        let count = neg.ws.min(n_blocks + 1 - next);
+        let send_window = || {
+            for i in 0..count {
+                let abs = next + i;
+                let s0 = (abs - 1) * blk;
+                let e0 = (s0 + blk).min(data.len());
+                cl.send(&refcodec::data(abs as u16, &data[s0..e0]), neg.peer);
+                if i % 40 == 39 {
+                    std::thread::sleep(Duration::from_millis(3));
+                }
+            }
+        };
+        send_window();
+        let last = next + count - 1;
+        let t0 = std::time::Instant::now();
+        let mut resent = 0u32;
+        loop {
+            match cl.recv(Duration::from_millis(500)) {
+                Some((b, _)) => match refcodec::decode(&b) {
+                    RDec::Ok(RPacket::Ack(k)) if k as usize == last => break,
+                    RDec::Ok(RPacket::Ack(_)) => continue,
+                    other => return Err(("dup-mode-upload".into(), format!("N={}: a loss-free paced upload with windowsize {} was answered with {:?} after blocks {}..{}", n, neg.ws, other, next, last))),
+                },
+                None => {
+                    if t0.elapsed() > Duration::from_secs(12) {
+                        return Err(("dup-mode-upload".into(), format!("N={}: no ACK {} for blocks {}..{} of a paced upload (windowsize {}) although the window was retransmitted every 1.5 s", n, last, next, last, neg.ws)));
+                    }
+                    // like any conformant sender: retransmit the window after a timeout (a worker that was busy repeating its
+                    // ACK may have let its socket buffer overflow)
+                    if t0.elapsed() > Duration::from_millis(1500 * (1 + resent as u64)) {
+                        resent += 1;
+                        send_window();
+                    }
+                }
+            }
+        }
+        next += count;
     }
     // the last ACK copies are still on their way; the file is complete at the first copy
     let stored = std::fs::read(d.join("big.bin")).unwrap_or_default();
